@@ -118,6 +118,28 @@ def container_clone_event(obj, spec):
             "outcome": out, "back": back}
 
 
+def boundary_traces(spec, kinds=("synth", "project"), w=True):
+    """Round trips of gen.boundary_sources (deterministic boundary values): stand-alone, cloned, and wrapped in a project."""
+    import rv.api as api
+    from . import gen
+    out = []
+    for name, obj in gen.boundary_sources(spec):
+        is_synth = isinstance(obj, api.Synth)
+        if is_synth and "synth" in kinds:
+            out.append({"id": name, "events": [roundtrip_event(obj, spec, w=w)]})
+            out.append({"id": name + ".clone", "events": [clone_event(obj.module, spec)]})
+        if "project" in kinds:
+            if is_synth:
+                p = api.Project()
+                p.attach_module(obj.module)
+                p.connect(obj.module, p.output)
+                out.append({"id": name + ".in-project", "events": [roundtrip_event(p, spec, w=w)]})
+            else:
+                out.append({"id": name, "events": [roundtrip_event(obj, spec, w=False)]})
+                out.append({"id": name + ".clone", "events": [container_clone_event(obj, spec)]})
+    return out
+
+
 def load_event(data, spec):
     out, q = load(data)
     projection.pop_overflows()
